@@ -54,6 +54,7 @@ def shards(tier, seed):
             out.append(dict(name="scanN/L%d/m%d" % (L, mi), kind="scan", L=L, mi=mi, N=True, numba_threads=2, weight=5 ** L))
     for L in ((130, 300, 33000) if tier == "quick" else (130, 300, 33000, 70000)):
         out.append(dict(name="planted/L%d" % L, kind="planted", L=L, numba_threads=4, weight=L))
+    out.append(dict(name="history", kind="history", numba_threads=2, weight=800))
     out.append(dict(name="fasta", kind="fasta", numba_threads=2, weight=500))
     out.append(dict(name="threads", kind="threads", numba_threads=16, weight=3000))
     out.append(dict(name="binedge", kind="binedge", numba_threads=1, weight=500))
@@ -373,6 +374,43 @@ def run_planted(rec, sh, tier, seed):
         shutil.rmtree(d, ignore_errors=True)
 
 
+def run_history(rec, tier, seed):
+    """Call histories in one process: the same motif NAMES and widths with different probabilities, pseudocounts, bin sizes, thresholds and
+    strand settings in alternation - every call must be answered from its own arguments (tables / thresholds of an earlier call must not be reused)."""
+    from tangermeme.tools.fimo import fimo
+    codes = all_codes(4, 5)
+    X = ohe(codes, 4)
+    A_ = {"m0": build([1, 4, 1], 0), "m1": build([4, 4], 1)}
+    B_ = {"m0": build([4, 1, 5], 2), "m1": build([1, 3], 0)}          # same names and widths, different probabilities
+    C_ = {"m0": build([0, 4, 0], 1), "m1": build([4, 0], 0)}          # uniform columns: eps changes their discretised score
+    steps = [(A_, 1e-4, 0.1, 0.05, True), (B_, 1e-4, 0.1, 0.05, True), (A_, 1e-4, 0.1, 0.05, True), (A_, 0.05, 0.1, 0.05, True), (A_, 1e-4, 0.5, 0.05, True),
+             (A_, 1e-4, 0.1, 0.3, False), (C_, 0.1, 0.1, 0.05, True), (C_, 1e-4, 0.1, 0.05, True), (C_, 0.01, 0.01, 0.05, False), (B_, 0.1, 0.5, 0.01, True),
+             (A_, 1e-4, 0.1, 0.05, True)]
+    orders = [list(range(len(steps))), list(range(len(steps)))[::-1], [0, 3, 0, 4, 0, 1, 6, 7, 6, 8, 9, 2]]
+    for oi, order in enumerate(orders):
+        for k, si in enumerate(order):
+            pw, eps, bs, thr, rc = steps[si]
+            md = {n: torch.from_numpy(p) for n, p in pw.items()}
+            motifs = list(pw.items())
+            ref, und = ref_hits_packed(codes, motifs, eps, bs, thr, rc)
+            st, dfs = call(fimo, md, X, eps=eps, bin_size=bs, threshold=thr, reverse_complement=rc)
+            case = dict(fn="fimo", history_order=oi, step=k, config=dict(motifs=si, eps=eps, bin_size=bs, threshold=thr, reverse_complement=rc), L=5,
+                        previous_configs=[steps[j][1:] for j in order[:k]][-3:])
+            rec.case(len(codes) * 2, len(ref))
+            if st != "ok":
+                rec.violation("fimo:raises:history", case, observed=dfs)
+                continue
+            got, dup = df_to_hits(dfs)
+            if got is None or dup or set(got) - und != set(ref) - und:
+                rec.violation("fimo:hit_set_depends_on_earlier_calls", case, expected=len(ref), observed=None if got is None else len(got))
+                continue
+            bad = [kk for kk in set(got) - und if abs(got[kk][1] - ref[kk][1]) > 1e-9 * ref[kk][1] or abs(got[kk][0] - ref[kk][0]) > 1e-9 * max(1, abs(ref[kk][0]))]
+            if bad:
+                rec.violation("fimo:p_value_depends_on_earlier_calls", dict(case, hit=list(bad[0])), expected=ref[bad[0]], observed=got[bad[0]][:2])
+            rec.observe(oi, k, len(ref))
+    rec.sample(dict(kind="history", steps=[(si, s_[1:]) for si, s_ in enumerate(steps)], orders=orders))
+
+
 FASTA_SETS = [
     [("s1", "ACGTACGTTTGCA"), ("s2", "ac"), ("chrZ", "ACGNNACGacgTTA"), ("x", "ACG")],
     [("a", "TTTACG"), ("b", "A"), ("c", "CGTACGTAAACGTnnnACG"), ("d", "GGGGCGT")],
@@ -512,6 +550,8 @@ def run_shard(sh, tier, seed):
     k = sh["kind"]
     if k == "scan":
         run_scan(rec, sh, tier, seed)
+    elif k == "history":
+        run_history(rec, tier, seed)
     elif k == "planted":
         run_planted(rec, sh, tier, seed)
     elif k == "fasta":
@@ -526,7 +566,9 @@ def run_shard(sh, tier, seed):
 def replay(v):
     c = v["case"]
     rec = Recorder(PID, "replay")
-    if c.get("probe"):
+    if "history_order" in c:
+        run_history(rec, "quick", 0)
+    elif c.get("probe"):
         run_binedge(rec, "quick", 0)
     elif "planted" in c.get("input", ""):
         run_planted(rec, dict(L=c["L"]), "quick", c.get("seed", 0))
